@@ -293,6 +293,11 @@ mut2("c06-default-refcount-shared-between-tries", ["C06"], [
     (HX, "            if prune:\n                self._ref_count = defaultdict(int)\n", "            if prune:\n                self._ref_count = _DEFAULT_REF_COUNT\n"),
 ], suite=None, note="the default reference-count table is one module-level object: two pruning tries in one process share their counts")
 
+mut("c13-branch-validation-by-assert", ["C13"], BR,
+    "    if BinaryTrie(db=db, root_hash=root_hash).get(key) != value:\n        raise AssertionError(\"Branch does not prove the claimed value for the key\")\n",
+    "    assert BinaryTrie(db=db, root_hash=root_hash).get(key) == value\n",
+    suite=True, note="the shipped defect: under python -O the assert is stripped and every branch validates any claim (caught by the -O slice)")
+
 quiet("q-no-shortcircuit-delete-branch", ["C01", "C02", "C06"], HX,
       "        if encoded_sub_node == node[trie_key[0]]:\n            # If no change, (value already empty), short-circuit and skip any other work\n            return node\n\n        node[trie_key[0]] = encoded_sub_node",
       "        node[trie_key[0]] = encoded_sub_node",
